@@ -258,6 +258,10 @@ def _tier_b(ctx) -> list[Inst]:
         # tier B decides only NEAR the reference: the same tests (essential atoms at every nesting level, up to the
         # constants and the strictness of comparisons inside them) with a different outcome somewhere.  A table over other tests is a restructured function - which this comparison
         # cannot tell from a changed one: unproven.
+        if not extra and _imprecise_counts(table) != _imprecise_counts(ref_table):
+            # the same KINDS of uninterpreted constructs, but not the same number of them (a recursion turned into a
+            # second `while`, an extra loop-carried local): restructured
+            extra = ['<another number of uninterpreted constructs (while loops / carried state) than the reference>']
         if not extra and k2 - k1:
             # the REFERENCE leans on constructs the table language only names (state carried through a loop ..) and the
             # code does without them: the two were not brought to a common form
@@ -480,6 +484,19 @@ def _kinds(t, acc):
         for x in t:
             if isinstance(x, tuple):
                 _kinds(x, acc)
+    return acc
+
+
+def _imprecise_counts(t, acc=None):
+    """how often each construct the table language only names (while loops, carried state ..) occurs"""
+    from ..genf import IMPRECISE
+    acc = acc if acc is not None else {}
+    if isinstance(t, tuple) and t:
+        if isinstance(t[0], str) and t[0] in IMPRECISE:
+            acc[t[0]] = acc.get(t[0], 0) + 1
+        for x in t:
+            if isinstance(x, tuple):
+                _imprecise_counts(x, acc)
     return acc
 
 
